@@ -29,3 +29,37 @@ Print Assumptions C14_radau_stage_equations_solvable.
 (* non-vacuity: z = 0 (h = 0 or lambda = 0) -- the stage equations hold with Z = 0 *)
 Example C14_stage_eqs_satisfiable : RadauReal.stages (- 0) 0 0 0.
 Proof. unfold RadauReal.stages, stage_eqs. repeat split; ring. Qed.
+
+(* Where the matrix above comes from (proofs/RadauFixedPoint.v).  The simplified Newton iteration of the code works on
+   the transformed increments W = TI Z; its right-hand sides vanish exactly when, per component,
+       TI_1 . G = (U1/h) W1,   TI_2 . G = (ALPH/h) W2 - (BETA/h) W3,   TI_3 . G = (ALPH/h) W3 + (BETA/h) W2,
+   with G_j = f(x + c_j h, y + Z_j) and Z = T W (T_32 = 1, T_33 = 0, as the code applies T).  For ANY real T, TI and
+   eigenvalue data with U1 <> 0, ALPH^2 + BETA^2 <> 0 and h <> 0, such a fixed point satisfies the stage equations
+       Z = h * (T Lambda^-1 TI) G,
+   however many Newton passes it took to get there (identity mass matrix).  The second theorem says that the matrix
+   Aeff of model/RadauEff.v, whose order / Pade / damping properties are the theorems of C02 and above, is exactly that
+   product for the constants regenerated from src/methods/radau.rs. *)
+Require Import IVP.proofs.RadauFixedPoint.
+Theorem C14_radau_newton_fixed_point_solves_stage_equations :
+  forall t00 t01 t02 t10 t11 t12 t20 i00 i01 i02 i10 i11 i12 i20 i21 i22 u1 al be h : R,
+    u1 <> 0 -> al * al + be * be <> 0 -> h <> 0 ->
+    forall g1 g2 g3 w1 w2 w3 z1 z2 z3 : R,
+    i00 * g1 + i01 * g2 + i02 * g3 = u1 / h * w1 ->
+    i10 * g1 + i11 * g2 + i12 * g3 = al / h * w2 - be / h * w3 ->
+    i20 * g1 + i21 * g2 + i22 * g3 = al / h * w3 + be / h * w2 ->
+    z1 = w1 * t00 + w2 * t01 + w3 * t02 -> z2 = w1 * t10 + w2 * t11 + w3 * t12 -> z3 = w1 * t20 + w2 ->
+    let A := aeff u1 al be in
+    z1 = h * (A t00 t01 t02 i00 i10 i20 * g1 + A t00 t01 t02 i01 i11 i21 * g2 + A t00 t01 t02 i02 i12 i22 * g3) /\
+    z2 = h * (A t10 t11 t12 i00 i10 i20 * g1 + A t10 t11 t12 i01 i11 i21 * g2 + A t10 t11 t12 i02 i12 i22 * g3) /\
+    z3 = h * (A t20 1 0 i00 i10 i20 * g1 + A t20 1 0 i01 i11 i21 * g2 + A t20 1 0 i02 i12 i22 * g3).
+Proof. intros; eapply fixed_point_stage_equations; eauto. Qed.
+Print Assumptions C14_radau_newton_fixed_point_solves_stage_equations.
+
+Require QArith Qcanon.
+Theorem C14_radau_Aeff_is_T_LamInv_TI :
+  RE.Aeff lit_q = qaeff_matrix /\
+  RE.c lit_q IVP.gen.Consts_radau.U1 <> Qcanon.Q2Qc (QArith_base.Qmake 0 1) /\
+  Qcanon.Qcplus (Qcanon.Qcmult (RE.c lit_q IVP.gen.Consts_radau.ALPH) (RE.c lit_q IVP.gen.Consts_radau.ALPH))
+                (Qcanon.Qcmult (RE.c lit_q IVP.gen.Consts_radau.BETA) (RE.c lit_q IVP.gen.Consts_radau.BETA)) <> Qcanon.Q2Qc (QArith_base.Qmake 0 1).
+Proof. split; [exact Aeff_is_T_LamInv_TI|exact eigen_data_nonzero]. Qed.
+Print Assumptions C14_radau_Aeff_is_T_LamInv_TI.
